@@ -67,6 +67,8 @@ def run_focus(res, scratch, focus, *, tier, seed, replay):
         rp = json.load(open(replay))
         sc = rp["script"]
         sc["focus"] = focus
+        if sc.get("leg") == "real":
+            return run_real(res, scratch, ov, focus, tier, seed, only=sc)
         tp, summ = nbconn.run_driver(res, scratch, [sc], binary)
         res.coverage["evaluations"] = 1
         nbconn.validate(res, scratch, tp, {sc["id"]: sc}, prop=focus)
@@ -90,6 +92,52 @@ def run_focus(res, scratch, focus, *, tier, seed, replay):
     if summ["drift"]:
         res.notes.append("drift (real code left the implementation-level model; not a verdict): %s" % summ["drift_at"][:8])
     nbconn.validate(res, scratch, tp, scen, prop=focus)
+    run_real(res, scratch, ov, focus, tier, seed)
     for s in all_scripts[:2]:
         res.sample({"script": s["id"], "threads": s["threads"],
                     "steps": [x.get("t") or "%s(%s)" % (x["env"], x.get("m")) for x in s["steps"]]})
+
+
+def real_scenarios(focus, tier, seed):
+    import random
+    rnd = random.Random(seed * 31 + 5)
+    out = []
+    reps = 1 if tier == "quick" else 6
+    if focus in ("C01", "C04"):
+        for rep in range(reps):
+            for mode in ("LT", "ET", "OS"):
+                for transport in ("tcp", "unix"):
+                    for origin in ("goroutine", "onopen", "ondata", "dial"):
+                        out.append(dict(mode=mode, transport=transport, origin=origin,
+                                        writers=2 if origin != "dial" else 1, calls=10 if tier == "quick" else 30,
+                                        maxsize=150000, maxwb=0, ops="wvs"))
+    else:
+        for rep in range(reps):
+            for mode in ("LT", "ET", "OS"):
+                for transport in ("tcp", "unix"):
+                    for maxwb in (65536, 200000):
+                        out.append(dict(mode=mode, transport=transport, origin="goroutine", writers=1,
+                                        calls=40, maxsize=50000, maxwb=maxwb, ops="wvs" if transport == "tcp" else "wv"))
+    for i, s in enumerate(out):
+        s.update(id="real-%s-%s-%s#%d" % (s["mode"], s["transport"], s["origin"], i), focus=focus, leg="real",
+                 seed=rnd.randrange(1 << 40))
+    return out
+
+
+def run_real(res, scratch, ov, focus, tier, seed, only=None):
+    binary = common.go_build(scratch, "./cmd/streamreal", overlay=ov, name="streamreal")
+    scens = [only] if only else real_scenarios(focus, tier, seed)
+    sp = scratch.fresh("rscen") + ".json"
+    with open(sp, "w") as f:
+        json.dump(scens, f)
+    tp = scratch.fresh("rtrace") + ".ndjson"
+    rc, out, dt = common.run([binary, "-trace", tp, "-scenarios", sp], timeout=3000)
+    if rc != 0:
+        raise Infra("streamreal driver failed rc=%d: %s" % (rc, out[-3000:]))
+    summ = json.loads(out.strip().splitlines()[-1])
+    res.coverage["evaluations"] += len(scens)
+    res.coverage["distinct_nontrivial"] += summ["nontrivial"]
+    res.coverage["real_bytes"] = summ["bytes"]
+    res.coverage["real_short_writes_or_eagain"] = summ["partial_or_eagain"]
+    nbconn.validate(res, scratch, tp, {s["id"]: s for s in scens}, prop=focus)
+    res.sample({"real_scenario": scens[0]})
